@@ -239,13 +239,13 @@ def self_ty_of(it):
     return ""
 
 
-def find_index_loops(fn):
+def find_index_loops(fn, worklists=False):
     """Counting loops over a collection: `let mut i = 0; while i < v.len() { .. v[i] ..; i += 1 }`.
     {header bb: {"counter": local, "coll": place json of v}} for loops with exactly this shape: the counter has one definition
     outside the loop and one inside, `i = i + 1`, in a block that dominates every back edge; a guard `i < len(v)` inside the
     loop whose false edge leaves the loop.  The engine analyses such a loop like `for item in v` (counter = index@bbH,
     v[counter] = item@bbH); anything that deviates from the shape is left alone."""
-    cached = getattr(fn, "_index_loops", None)
+    cached = getattr(fn, "_index_loops_w" if worklists else "_index_loops", None)
     if cached is not None:
         return cached
     out = {}
@@ -305,7 +305,7 @@ def find_index_loops(fn):
                     if not all(fn.dominates(g, x) for x in body if x not in (h,) and not fn.dominates(x, g)):
                         continue
                     cplace = None
-                    if db["kind"] == "call" and re.search(r"Vec::<.*>::len$|<impl \[.*\]>::len$", M.call_name(db["term"])) and db["term"]["args"] and db["term"]["args"][0].get("k") in ("copy", "move"):
+                    if db["kind"] == "call" and re.search(r"Vec::<.*>::len$|<impl \[.*\]>::len$" + (r"|::len$" if worklists else ""), M.call_name(db["term"])) and db["term"]["args"] and db["term"]["args"][0].get("k") in ("copy", "move"):
                         dr = fn.single_def(db["term"]["args"][0]["p"]["l"])
                         if dr and dr["kind"] == "assign" and dr["stmt"]["rv"]["k"] == "ref":
                             cplace = dr["stmt"]["rv"]["p"]
@@ -330,10 +330,13 @@ def find_index_loops(fn):
                                     mutated = True
                     if not mutated:
                         out[h] = {"counter": i, "coll": coll, "inc_bb": ins[0]["bb"]}
+                    elif worklists:
+                        # a work list processed by position: `while done < list.len() { let cur = id(done); done += 1; .. list grows .. }`
+                        out[h] = {"counter": i, "coll": coll, "inc_bb": ins[0]["bb"], "worklist": True}
                     break
     except Exception:
         out = {}
-    fn._index_loops = out
+    setattr(fn, "_index_loops_w" if worklists else "_index_loops", out)
     return out
 
 
@@ -420,14 +423,15 @@ class Engine:
     _next_frame = [0]
 
     def __init__(self, fn, facts=None, model=None, cut_edges=(), stop_blocks=(), visit_limit=1,
-                 max_paths=MAX_PATHS, opaque_calls=True, depth=0, inline=None, max_depth=5, stack=(), desugar=None):
+                 max_paths=MAX_PATHS, opaque_calls=True, depth=0, inline=None, max_depth=5, stack=(), desugar=None, worklist_counters=False):
         Engine._next_frame[0] += 1
         self.fid = Engine._next_frame[0]
         self.depth = depth
         self.stack = tuple(stack) + (fn.name,)
         self.desugar = desugar
         self.inline = inline
-        self.index_loops = find_index_loops(fn) if facts is not None else {}
+        self.worklist_counters = worklist_counters
+        self.index_loops = find_index_loops(fn, worklists=worklist_counters) if facts is not None else {}
         self.slice_cursors = find_slice_cursor_loops(fn) if facts is not None else {}
         self.max_depth = max_depth
         self.fn = fn
